@@ -46,6 +46,52 @@ pub fn run_random(seed: u64, count: usize, out: &mut dyn Write) {
         serde_json::to_writer(&mut *out, &ev).unwrap();
         out.write_all(b"\n").unwrap();
     }
+    // maps too large for the TLA+ decoder, made of values that come back exactly as written (no String, no
+    // snapping rotation): the decoded map is compared with the written one through a fingerprint of the projections
+    {
+        use rbx_dom_weak::types::{ColorSequence, ColorSequenceKeypoint, Color3, NumberSequence, NumberSequenceKeypoint, Variant};
+        let n = 66_000usize;
+        let mut big = Attributes::new();
+        big.insert("Long".to_string(), Variant::NumberSequence(NumberSequence { keypoints: (0..n).map(|i| NumberSequenceKeypoint::new(i as f32 / n as f32, (i % 13) as f32, (i % 4) as f32 * 0.25)).collect() }));
+        big.insert("Zafter".to_string(), Variant::Bool(true));
+        let mut colors = Attributes::new();
+        colors.insert("Colors".to_string(), Variant::ColorSequence(ColorSequence { keypoints: (0..n).map(|i| ColorSequenceKeypoint::new(i as f32 / n as f32, Color3::new((i % 7) as f32 / 7.0, 0.5, 1.0))).collect() }));
+        colors.insert("Zafter".to_string(), Variant::Int32(7));
+        let mut many = Attributes::new();
+        for i in 0..70_000 {
+            many.insert(format!("k{:05}", i), Variant::Float64(i as f64 * 0.5));
+        }
+        let mut wide = Attributes::new();
+        wide.insert("Blob".to_string(), Variant::BinaryString((0..1_200_000usize).map(|i| (i % 253) as u8).collect::<Vec<u8>>().into()));
+        for (k, a) in [big, colors, many, wide].into_iter().enumerate() {
+            let fp = |a: &Attributes| blake3::hash(attributes(a, &RefMap::new()).to_string().as_bytes()).to_hex().to_string();
+            let mut ev = json!({"ep": format!("attr:{}:huge{}", seed, k), "op": "attr_fp", "fp_before": fp(&a), "entries": a.len()});
+            let mut buf = Vec::new();
+            match catch_unwind(AssertUnwindSafe(|| a.to_writer(&mut buf))) {
+                Ok(Ok(())) => {
+                    ev["write"] = json!("ok");
+                    ev["bytes"] = json!(buf.len());
+                    match catch_unwind(AssertUnwindSafe(|| Attributes::from_reader(&buf[..]))) {
+                        Ok(Ok(b)) => {
+                            ev["read"] = json!("ok");
+                            ev["fp_after"] = json!(fp(&b));
+                        }
+                        Ok(Err(e)) => {
+                            ev["read"] = json!("err");
+                            ev["detail"] = json!(format!("{:?}", e));
+                        }
+                        Err(p) => {
+                            ev["read"] = json!("panic");
+                            ev["detail"] = json!(panic_msg(p));
+                        }
+                    }
+                }
+                _ => ev["write"] = json!("err"),
+            }
+            serde_json::to_writer(&mut *out, &ev).unwrap();
+            out.write_all(b"\n").unwrap();
+        }
+    }
     // zero bytes decode to an empty map
     let ev = json!({"ep": format!("attr:{}:empty", seed), "op": "attr_foreign", "blob": [], "described": [], "back": decode(&[])});
     serde_json::to_writer(&mut *out, &ev).unwrap();
